@@ -1785,8 +1785,106 @@ fn float_b2_repr(v: &mut Vec<Op>) {
 const Q1: Uses = U0.a(2).b(1);
 const Q2: Uses = U0.a(2).b(1).c(2).d(1);
 
+/// division of rationals by zero: the rational crate has its own helper, `%` and the Euclidean forms
+/// reach the integer crate's helper; both name the documented failure
 fn q2_zero(c: &Case) -> Exp {
-    Pre::new().must(c.c.is_zero(), L_DIV0, M_QDIV0).done()
+    Pre::new().must(c.c.is_zero(), L_DIV0, M_QDIV0).must(c.c.is_zero(), L_DIV0, M_DIV0).done()
+}
+
+const KF_QPARSE: &str = "C16/relaxed-parse-zero-denominator-panics";
+const KF_FAREY: &str = "C16/farey-neighbors-linear-walk";
+
+/// number of mediant steps of `RBig::farey_neighbors` for a target t = n/d in (0, 1] and a
+/// denominator limit L (simulated with run lengths; capped)
+fn farey_steps(n: &BigUint, d: &BigUint, limit: &BigUint) -> u64 {
+    use num_traits::One;
+    let (n, d, l) = (BigInt::from(n.clone()), BigInt::from(d.clone()), BigInt::from(limit.clone()));
+    let (mut a, mut b, mut c, mut e) = (BigInt::zero(), BigInt::one(), BigInt::one(), BigInt::one());
+    let mut count = BigInt::zero();
+    let cap = BigInt::from(u64::MAX / 4);
+    for _ in 0..100_000 {
+        let mut moved = false;
+        // right bound moves towards the left one: right_k = (c + k a) / (e + k b) while > t and denominator <= L
+        {
+            let room = (&l - &e).div_floor(&b);
+            let den = &n * &b - &a * &d; // >= 0
+            let k = if den.is_zero() {
+                room
+            } else {
+                let num = &c * &d - &n * &e; // > 0
+                let kmax = (&num + &den - BigInt::one()).div_floor(&den) - BigInt::one(); // largest k with k·den < num
+                kmax.min(room)
+            };
+            if k > BigInt::zero() {
+                c += &k * &a;
+                e += &k * &b;
+                count += &k;
+                moved = true;
+            }
+        }
+        // left bound moves towards the right one: left_k = (a + k c) / (b + k e) while <= t and denominator <= L
+        {
+            let room = (&l - &b).div_floor(&e);
+            let den = &c * &d - &n * &e; // > 0
+            let num = &n * &b - &a * &d; // >= 0
+            let k = if den.is_zero() { BigInt::zero() } else { num.div_floor(&den).min(room) };
+            if k > BigInt::zero() {
+                a += &k * &c;
+                b += &k * &e;
+                count += &k;
+                moved = true;
+            }
+        }
+        if !moved || count > cap {
+            break;
+        }
+    }
+    count.to_u64().unwrap_or(u64::MAX)
+}
+
+/// mediant steps that nearest / next_up / next_down will take (0 when they return at once)
+fn farey_cost(c: &Case, which: u8) -> u64 {
+    use num_traits::One;
+    let limit = c.c.mag.big();
+    if limit.is_zero() {
+        return 0;
+    }
+    let den = if c.b.is_zero() { BigUint::one() } else { c.b.mag.big() };
+    let q = num_rational::BigRational::new(c.a.big(), BigInt::from(den));
+    let simple = q.denom().magnitude() <= &limit;
+    if which == 0 && simple {
+        return 0;
+    }
+    let fract = q.fract();
+    let l2 = num_rational::BigRational::new(BigInt::one(), BigInt::from(&limit * &limit));
+    let target = match (which, simple) {
+        (1, true) => fract + l2,
+        (2, true) => fract - l2,
+        _ => fract,
+    };
+    let t = if target < num_rational::BigRational::from_integer(BigInt::zero()) { -target } else { target };
+    if t.numer().is_zero() {
+        return 0;
+    }
+    farey_steps(t.numer().magnitude(), t.denom().magnitude(), &limit)
+}
+
+fn pre_farey(c: &Case, which: u8) -> Exp {
+    let steps = farey_cost(c, which);
+    Pre::new().unspec(c.c.is_zero(), "unspecified: denominator limit 0").known(steps > 1_000_000, KF_FAREY, On::HangOrMem).done()
+}
+
+/// the text has the shape `<numerator>/<zero denominator>` (C16/relaxed-parse-zero-denominator-panics)
+fn zero_denominator_text(s: &str) -> bool {
+    match s.find('/') {
+        Some(i) => {
+            let d = &s[i + 1..];
+            let d = d.strip_prefix(['+', '-']).unwrap_or(d);
+            let d = d.strip_prefix("0x").or_else(|| d.strip_prefix("0o")).or_else(|| d.strip_prefix("0b")).unwrap_or(d);
+            !d.is_empty() && d.bytes().all(|b| b == b'0' || b == b'_') && d.bytes().any(|b| b == b'0')
+        }
+        None => false,
+    }
 }
 
 macro_rules! q_bin {
@@ -1870,9 +1968,9 @@ macro_rules! ratio_type {
         fmt_entries!($v, "ratio", T, 0, t, Q1, |c| c.$g1(), |_d| ret(), "{}" "{:?}" "{:#?}" "{:>50}" "{:+}" "{:.3}" "{:010}");
         entry!($v, "ratio", T, 0, format!("{t}::to_string"), Q1, |c| c.$g1().to_string(), |_d| ret());
         const P: &str = "ratio: parsing";
-        entry!($v, "ratio", P, 0, format!("{t}::from_str"), U0.s(SK::Ratio), |c| $T::from_str(&c.s), |_d| ret());
-        entry!($v, "ratio", P, 0, format!("{t}::from_str_radix"), U0.s(SK::Ratio).n(NK::Radix), |c| $T::from_str_radix(&c.s, c.n as u32), |_d| ret());
-        entry!($v, "ratio", P, 0, format!("{t}::from_str_with_radix_prefix"), U0.s(SK::Ratio), |c| $T::from_str_with_radix_prefix(&c.s), |_d| ret());
+        entry!($v, "ratio", P, 0, format!("{t}::from_str"), U0.s(SK::Ratio), |c| $T::from_str(&c.s), |d| Pre::new().known(zero_denominator_text(&d.s), KF_QPARSE, On::Panic("Option::unwrap()")).done());
+        entry!($v, "ratio", P, 0, format!("{t}::from_str_radix"), U0.s(SK::Ratio).n(NK::Radix), |c| $T::from_str_radix(&c.s, c.n as u32), |d| Pre::new().known(zero_denominator_text(&d.s), KF_QPARSE, On::Panic("Option::unwrap()")).done());
+        entry!($v, "ratio", P, 0, format!("{t}::from_str_with_radix_prefix"), U0.s(SK::Ratio), |c| $T::from_str_with_radix_prefix(&c.s), |d| Pre::new().known(zero_denominator_text(&d.s), KF_QPARSE, On::Panic("Option::unwrap()")).done());
     }};
 }
 
@@ -1893,9 +1991,9 @@ fn ratio_ops(v: &mut Vec<Op>) {
     entry!(v, "ratio", S, 10, "RBig::simplest_from_float(FBig<HalfAway,10>)", FX, |c| RBig::simplest_from_float(&c.fx::<mode::HalfAway, 10>()), |d| pre_digits_ret(&fv(&d.x, 10)));
     // a zero limit: the code panics with the division-by-zero helper, the rustdoc does not mention it
     const QL: Uses = U0.a(2).b(1).c(1);
-    entry!(v, "ratio", S, 0, "RBig::nearest", QL, |c| c.q1().nearest(&c.uc()), |d| Pre::new().unspec(d.c.is_zero(), "unspecified: denominator limit 0").done());
-    entry!(v, "ratio", S, 0, "RBig::next_up", QL, |c| c.q1().next_up(&c.uc()), |d| Pre::new().unspec(d.c.is_zero(), "unspecified: denominator limit 0").done());
-    entry!(v, "ratio", S, 0, "RBig::next_down", QL, |c| c.q1().next_down(&c.uc()), |d| Pre::new().unspec(d.c.is_zero(), "unspecified: denominator limit 0").done());
+    entry!(v, "ratio", S, 0, "RBig::nearest", QL, |c| c.q1().nearest(&c.uc()), |d| pre_farey(d, 0));
+    entry!(v, "ratio", S, 0, "RBig::next_up", QL, |c| c.q1().next_up(&c.uc()), |d| pre_farey(d, 1));
+    entry!(v, "ratio", S, 0, "RBig::next_down", QL, |c| c.q1().next_down(&c.uc()), |d| pre_farey(d, 2));
     entry!(v, "ratio", S, 0, "RBig::relax / Relaxed::canonicalize / as_relaxed", Q1, |c| (c.q1().relax(), c.l1().canonicalize(), c.q1().as_relaxed().clone()), |_d| ret());
     entry!(v, "ratio", S, 0, "RBig::is_int", Q1, |c| c.q1().is_int(), |_d| ret());
     entry!(v, "ratio", S, 0, "RBig hash", Q1, |c| { use std::hash::{Hash, Hasher}; let mut h = std::collections::hash_map::DefaultHasher::new(); c.q1().hash(&mut h); h.finish() }, |_d| ret());
@@ -2918,6 +3016,41 @@ fn call_strategy(ops: Vec<usize>) -> BoxedStrategy<Case> {
         .boxed()
 }
 
+/// parsers on arbitrary strings: proptest `.*`, strings over a grammar-near alphabet, pool strings
+/// with a random mutation; shrinking is on (a parse call is cheap)
+fn parse_strategy(ops: Vec<usize>, kind: SK) -> BoxedStrategy<Case> {
+    assert!(!ops.is_empty());
+    let alphabet: Vec<char> = match kind {
+        SK::Float => "0123456789abcdefABCDEFxXpPeEhHoObB@._+-/ \u{e9}\u{0}zZ\u{661}_".chars().collect(),
+        SK::Ratio => "0123456789abcdefxXob/_+- \u{e9}\u{0}zZ\u{661}/_0".chars().collect(),
+        _ => "0123456789abcdefABCDEFxXobzZ_+- \u{e9}\u{0}\u{661}._/".chars().collect(),
+    };
+    let near = proptest::collection::vec(prop::sample::select(alphabet), 0..40).prop_map(|v| v.into_iter().collect::<String>());
+    let mutated = (string_edge(kind), any::<u16>(), any::<char>()).prop_map(|(s, pos, ch)| {
+        if s.len() > 300 {
+            return s;
+        }
+        let mut cs: Vec<char> = s.chars().collect();
+        let i = if cs.is_empty() { 0 } else { pos as usize % (cs.len() + 1) };
+        match pos % 3 {
+            0 => cs.insert(i, ch),
+            1 if i < cs.len() => {
+                cs.remove(i);
+            }
+            _ if i < cs.len() => cs[i] = ch,
+            _ => cs.push(ch),
+        }
+        cs.into_iter().collect()
+    });
+    let text = prop_oneof![3 => ".*".prop_map(|s| s), 5 => near, 3 => mutated];
+    (0..ops.len(), text, count_edge(NK::Radix))
+        .prop_map(move |(i, s, n)| {
+            let op = &cat()[ops[i]];
+            Case { op: op.name.clone(), s, n: if op.uses.n == NK::Radix { n } else { 0 }, ..Case::default() }
+        })
+        .boxed()
+}
+
 fn ops_where(f: impl Fn(&Op) -> bool) -> Vec<usize> {
     cat().iter().enumerate().filter(|(_, o)| f(o)).map(|(i, _)| i).collect()
 }
@@ -2950,6 +3083,9 @@ fn main() {
     ck.sub("float_calls", (24_000, 600_000), || call_strategy(ops_where(|o| o.krate == "float")), judge);
     ck.sub("ratio_calls", (8_000, 200_000), || call_strategy(ops_where(|o| o.krate == "ratio")), judge);
     ck.sub("base_calls", (3_000, 75_000), || call_strategy(ops_where(|o| o.krate == "base")), judge);
+    ck.sub("parse_int", (4_000, 100_000), || parse_strategy(ops_where(|o| o.fam == "int: parsing"), SK::Int), judge);
+    ck.sub("parse_float", (4_000, 100_000), || parse_strategy(ops_where(|o| o.fam == "float: parsing"), SK::Float), judge);
+    ck.sub("parse_ratio", (2_000, 50_000), || parse_strategy(ops_where(|o| o.fam == "ratio: parsing"), SK::Ratio), judge);
 
     ck.assume("util-linux prlimit (RLIMIT_AS = 4 GiB per worker); /proc/<pid>/stat CPU accounting at 100 ticks/s; a confirmed hang = no answer within 10 s at >= 50 % CPU and none within 30 s in a fresh worker, on a small input");
     ck.assume("debug assertions and overflow checks are ON in the harness build: exponent / index arithmetic that would wrap silently in an ordinary release build is observed here as a panic");
